@@ -43,6 +43,11 @@ class ExtrasMixin:
         if isinstance(cls, VModule):
             if isinstance(v, VAny):
                 return _fn(f"isinstance_{cls.name}", AnySort, z3.BoolSort())(v.t)
+            if isinstance(v, VRef) and v.kind == "obj" and cls.name.startswith("ast."):
+                # a syntax-tree node given by a shape of the contract: its class is the shape's name (ast.expr / ast.AST are bases of all)
+                import ast as _ast
+                have, want = getattr(_ast, self.run.rec(v.oid).cls, None), getattr(_ast, cls.name.split(".", 1)[1], None)
+                return z3.BoolVal(isinstance(have, type) and isinstance(want, type) and issubclass(have, want))
             return z3.BoolVal(False)
         raise E.Unsupported(f"isinstance(_, {cls!r})")
 
@@ -496,6 +501,13 @@ class ExtrasMixin:
         # same term as the partial function collaborator builds: mv#ok(recv, arg)
         recv = sch
         return VBool(z3.Function("mv#ok", AnySort, AnySort, z3.BoolSort())(self.inject(recv), self.inject(d)))
+
+    def spec_is_tuple(self, node, frame):
+        return VBool(isinstance(self.force(self.eval(node.args[0], frame)), VTuple))
+
+    def spec_is_list(self, node, frame):
+        v = self.force(self.eval(node.args[0], frame))
+        return VBool(isinstance(v, VRef) and v.kind == "list")
 
     def spec_is_str(self, node, frame):
         return VBool(isinstance(self.force(self.eval(node.args[0], frame)), VStr))
